@@ -149,6 +149,18 @@ def run_digest(sc: dict, junk: int, holder: dict | None = None) -> dict:
         w = make_world(sc, [mon], opts, disk)
         if holder is not None and sc.get("share_calculator"):
             holder["calc"] = w.calc
+        if holder is not None and sc.get("share_operations"):
+            # the user built his displacement operations once (Box / Ball / Sphere hold a step size and nothing else)
+            # and hands the same objects to the moves of every simulation he builds from this configuration
+            mine = [m for _p, m in w.env.leaves if type(getattr(m, "operation", None)).__name__ in ("Box", "Ball", "Sphere")]
+            earlier = holder.get("ops")
+            if earlier is None:
+                holder["ops"] = [m.operation for m in mine]
+            elif len(earlier) == len(mine):
+                for m, op in zip(mine, earlier):
+                    if type(op) is type(m.operation) and op.to_dict() == m.operation.to_dict():
+                        m.operation = op
+                        w.result.count("fault.operation_object_shared_with_earlier_simulation")
         if holder is not None and sc.get("route") == "from_dict" and hasattr(w.mc, "from_dict"):
             _rebuild_from_state(w, sc, disk, holder)
         w.run()
@@ -248,6 +260,8 @@ class C06(HistoryCampaign):
             # one calculator object serves both simulations, one after the other (usual for expensive calculators):
             # the second starts with a calculator whose cache describes the end of the first
             sc["share_calculator"] = True
+        if sc["driver"] not in ("ForceBias", "AdaptiveForceBias") and sc.get("route") != "from_dict" and rnd.random() < 0.25:
+            sc["share_operations"] = True
         return sc
 
     def sample_view(self, sc):
